@@ -79,3 +79,25 @@ func VH_bloom_tx_match_and_update() {
 	}
 	vReach("match")
 }
+
+// C20(4'): outpoints: after AddOutPoint(o) the filter matches o, for every output index (all 2^32) - insertion and
+// query serialise the outpoint identically (txid || little-endian index) - on filters of 2 bytes with arbitrary
+// initial bits, 1..2 hash functions and an arbitrary tweak.
+//verif:opts reach=end
+func VH_bloom_outpoint_no_false_negative() {
+	filter := vNondetBytes("filter", 2)
+	bf := LoadFilter(&wire.MsgFilterLoad{Filter: filter, HashFuncs: uint32(1 + vNondetLen("hashFuncs", 1)), Tweak: vNondetU32("tweak")})
+	var op wire.OutPoint
+	for i := range op.Hash {
+		op.Hash[i] = byte(7*i + 1)
+	}
+	op.Index = vNondetU32("index")
+	bf.AddOutPoint(&op)
+	vAssert(bf.MatchesOutPoint(&op), "an inserted outpoint matches, whatever its index")
+	// and it is the BIP37 serialisation: inserting the bytes txid || LE32(index) directly has the same effect
+	raw := append(append([]byte{}, op.Hash[:]...), byte(op.Index), byte(op.Index>>8), byte(op.Index>>16), byte(op.Index>>24))
+	bf2 := LoadFilter(&wire.MsgFilterLoad{Filter: make([]byte, 2), HashFuncs: 1, Tweak: 5})
+	bf2.Add(raw)
+	vAssert(bf2.MatchesOutPoint(&op), "the outpoint's filter element is txid || little-endian index")
+	vReach("end")
+}
